@@ -30,14 +30,14 @@ type Job struct {
 
 // Line is one record of the result stream.
 type Line struct {
-	K       string            `json:"k"` // run | agg | done
-	I       int               `json:"i,omitempty"`
-	Seed    uint64            `json:"seed,omitempty"`
-	Plan    *kernel.Plan      `json:"plan,omitempty"`
-	Res     *kernel.Result    `json:"res,omitempty"`
-	PlanRef string            `json:"plan_ref,omitempty"`
-	Agg     *Agg              `json:"agg,omitempty"`
-	Extra   json.RawMessage   `json:"extra,omitempty"`
+	K       string          `json:"k"` // run | agg | done
+	I       int             `json:"i,omitempty"`
+	Seed    uint64          `json:"seed,omitempty"`
+	Plan    *kernel.Plan    `json:"plan,omitempty"`
+	Res     *kernel.Result  `json:"res,omitempty"`
+	PlanRef string          `json:"plan_ref,omitempty"`
+	Agg     *Agg            `json:"agg,omitempty"`
+	Extra   json.RawMessage `json:"extra,omitempty"`
 }
 
 type Agg struct {
